@@ -94,6 +94,17 @@ CHECKS = {
               "poles / across RA=0, row shuffle, centre permutation, weight factors 2^k bitwise and 1e-9..1e6, split)."),
         ref="5.C13", technique="Lean 4 theorems on the spec + metamorphic differential runs of the real pipeline",
         note="relies on C01/C03/C04 for spec = implementation; rotations applied in float64 with a 1e-8 guard band"),
+    "C14": dict(
+        text=("Theorems over the reals (Mathlib) on the formulas GENERATED from coordinates.py: sky -> vector is on the "
+              "unit sphere; vector -> sky inverts it for 0 <= ra < 2 pi, |dec| < pi/2 (poles: dec recovered, ra := 0); RA "
+              "always in [0, 2 pi) (python float % modelled with the floor); angle <-> chord are mutually inverse on "
+              "[0, pi] / [0, 2] and strictly increasing; the separation computed from the chord of two unit vectors IS "
+              "the angle between them, hence symmetric and a metric (triangle inequality from Mathlib); chords of unit "
+              "vectors never exceed 2, so the clipping added by the repair of F20 changes nothing in exact arithmetic. "
+              "PARTIAL: rounding is runtime behaviour - explicit bounds (k ulp x condition number, ill-conditioned cases "
+              "capped at 6e-8) are validated against a 60-digit mpmath oracle, not proved."),
+        ref="5.C14", technique="Lean 4 / Mathlib real-analysis theorems over translator-generated formulas + mpmath-validated rounding bounds",
+        note="libm accuracy < 1 ulp assumed; mean direction pinned and validated numerically"),
     "C15": dict(
         text=("Theorems: linear edges (np.linspace model) have n+1 strictly increasing entries with first = zmin and "
               "last = zmax; edges linear in any strictly increasing quantity g with inverse h (comoving distance, "
